@@ -3,6 +3,7 @@
 package main
 
 import (
+	"sort"
 	"fmt"
 	"strings"
 
@@ -74,6 +75,16 @@ func (g *sboxGen) nodeSelectors() []metav1.LabelSelector {
 	return nil
 }
 
+// advNodeSelectors: in a third of the histories no advertisement selects nodes, so that a node label
+// change leaves the configuration value untouched (only the peers' own node selectors react to it)
+func (g *sboxGen) advNodeSelectors() []metav1.LabelSelector {
+	sel := g.nodeSelectors()
+	if g.sb != nil && g.sb.plainAdvs {
+		return nil
+	}
+	return sel
+}
+
 func (g *sboxGen) node(name string) *v1.Node {
 	n := &v1.Node{ObjectMeta: metav1.ObjectMeta{Name: name, Labels: map[string]string{}}}
 	if g.r.Chance(4, 5) {
@@ -82,7 +93,8 @@ func (g *sboxGen) node(name string) *v1.Node {
 	if g.r.Chance(1, 2) {
 		n.Labels["rack"] = vfPick(g.r, []string{"1", "2"})
 	}
-	if g.r.Chance(1, 8) {
+	if g.r.Chance(1, 8) || (g.sb != nil && g.sb.ignoreExcludeLB && g.r.Chance(1, 2)) {
+		// a speaker told to ignore the label meets it often: only the network condition counts for it
 		n.Labels[sboxExcludeLabel] = ""
 	}
 	if g.r.Chance(1, 8) {
@@ -104,7 +116,7 @@ func (g *sboxGen) l2adv(name string, s *boxStore) *metallbv1beta1.L2Advertisemen
 	if g.r.Chance(1, 2) {
 		a.Spec.IPAddressPools = vfSubset(g.r, g.poolNames(s), 1, 2)
 	}
-	a.Spec.NodeSelectors = g.nodeSelectors()
+	a.Spec.NodeSelectors = g.advNodeSelectors()
 	a.Spec.Interfaces = vfPick(g.r, [][]string{nil, nil, {"eth0"}, {"eth1"}, {"ethX"}, {"eth0", "eth1"}})
 	return a
 }
@@ -114,7 +126,7 @@ func (g *sboxGen) bgpadv(name string, s *boxStore) *metallbv1beta1.BGPAdvertisem
 	if g.r.Chance(1, 2) {
 		a.Spec.IPAddressPools = vfSubset(g.r, g.poolNames(s), 1, 2)
 	}
-	a.Spec.NodeSelectors = g.nodeSelectors()
+	a.Spec.NodeSelectors = g.advNodeSelectors()
 	if g.r.Chance(2, 3) {
 		a.Spec.AggregationLength = ptr.To(int32(vfPick(g.r, []int{32, 32, 30, 28, 24})))
 	}
@@ -367,7 +379,7 @@ func (g *sboxGen) event() boxUserEvent {
 			return svc.Name
 		}}
 	case x < 34:
-		kind := vfPick(r, []string{"svc-retype", "svc-policy", "svc-status", "svc-status", "svc-status-clear", "svc-status-swap", "svc-status-drop-one", "svc-status-dual"})
+		kind := vfPick(r, []string{"svc-retype", "svc-policy", "svc-status", "svc-status", "svc-status-clear", "svc-status-swap", "svc-status-drop-one", "svc-status-dual", "svc-status-change-second"})
 		return boxUserEvent{Kind: kind, Apply: func(s *boxStore) string {
 			svc := g.pickSvc(s)
 			if svc == nil {
@@ -399,6 +411,26 @@ func (g *sboxGen) event() boxUserEvent {
 				} else {
 					g.setStatus(svc, g.drawStatus(s, true))
 				}
+			case "svc-status-change-second":
+				// a dual-stack service keeps its first address, only the second one is re-assigned
+				if ing := svc.Status.LoadBalancer.Ingress; len(ing) == 2 {
+					second, _, _ := vfCanonIP(ing[1].IP)
+					v6 := strings.Contains(second, ":")
+					var alt []string
+					for _, l := range sboxPoolAddrs(s) {
+						for _, a := range l {
+							if strings.Contains(a, ":") == v6 && a != second {
+								alt = append(alt, a)
+							}
+						}
+					}
+					sort.Strings(alt)
+					if len(alt) > 0 {
+						svc.Status.LoadBalancer.Ingress = []v1.LoadBalancerIngress{ing[0], {IP: vfPick(r, alt)}}
+					}
+				} else {
+					g.setStatus(svc, g.drawStatus(s, true))
+				}
 			case "svc-status-swap":
 				ing := svc.Status.LoadBalancer.Ingress
 				if len(ing) == 2 {
@@ -420,7 +452,7 @@ func (g *sboxGen) event() boxUserEvent {
 			return svc.Name + " " + sboxSlicesDump(s, svc.Name)
 		}}
 	case x < 60:
-		kind := vfPick(r, []string{"node-relabel", "node-exclude", "node-unavailable", "node-create", "node-delete"})
+		kind := vfPick(r, []string{"node-relabel", "node-exclude", "node-unavailable", "node-unavailable", "node-flip-both", "node-create", "node-delete"})
 		return boxUserEvent{Kind: kind, Apply: func(s *boxStore) string {
 			name := vfPick(r, []string{"n1", "n1", "n2", "n3", "n4", "n5"})
 			desc := name
@@ -587,6 +619,16 @@ func (g *sboxGen) mutateNode(n *v1.Node, kind, name string) {
 		} else {
 			n.Labels[sboxExcludeLabel] = ""
 		}
+	case "node-flip-both": // one update changes the exclude label and the network condition together
+		if n.Labels == nil {
+			n.Labels = map[string]string{}
+		}
+		if _, ok := n.Labels[sboxExcludeLabel]; ok {
+			delete(n.Labels, sboxExcludeLabel)
+		} else {
+			n.Labels[sboxExcludeLabel] = ""
+		}
+		fallthrough
 	case "node-unavailable":
 		if len(n.Status.Conditions) > 0 && n.Status.Conditions[0].Status == v1.ConditionTrue {
 			n.Status.Conditions = []v1.NodeCondition{{Type: v1.NodeNetworkUnavailable, Status: v1.ConditionFalse}}
